@@ -767,7 +767,16 @@ class Cache:
             if begin:
                 assert self._txn_id == tid
                 self._txn_id = None
-                sql('COMMIT')
+                try:
+                    sql('COMMIT')
+                except BaseException:
+                    # Nothing was committed: make that definite and drop the
+                    # files this transaction created.
+                    with cl.suppress(sqlite3.OperationalError):
+                        sql('ROLLBACK')
+                    for name in created:
+                        _disk_remove(name)
+                    raise
                 for name in replaced:
                     if name is not None:
                         _disk_remove(name)
